@@ -263,7 +263,7 @@ def is_diagonal(A: Any, atol: float = 1e-12) -> bool:
     if isinstance(A, np.ndarray):
         # Create a view of the offdiagonal array elements
         offdiagonal = A.reshape(-1)[:-1].reshape(len(A) - 1, len(A) + 1)[:, 1:]
-        return not np.any(np.round(offdiagonal, int(-np.log10(atol))))
+        return not np.any(np.abs(offdiagonal) > atol)
     if sparse.issparse(A):
         A = sparse.dia_array(A)
         return not any(A.offsets)
